@@ -137,4 +137,5 @@ pub const FIXED_POOL: &[&str] = &[
     "=IF(A1>1,\"y\",\"n\")", "=SUM(,1)", "=SUM(1,)", "=TRUE()", "=true", "=LAMBDA(x,x+1)(2)", "=1+", "=)", "=R[1]C[1]", "=R1C1", "=RC",
     "=r1c1+1", "=R2C2:R3C3", "=SUM(R1C1)", "=A1:B2 B1:C3", "=1 2", "=2^-1", "=--1", "=-1%", "=1%%", "=-A1^2", "=(A1:A2):A3",
     "=1/3", "=1E+300*10", "=\"a\"\"b\"", "=Name1", "=name1+1", "=Ghost!A1", "=SUM(Ghost!A1:A2)", "='Sheet 2'!A1", "=#REF!+1",
+    "=(A1):B2", "=A1:(A1:B2)", "=(Sheet1!A1):B2", "=(Sheet1!A1):INDEX(B1:B3,2)", "=SUM((A1):INDEX(B1:B3,2))",
 ];
